@@ -529,6 +529,17 @@ func vTry(f func()) (panicked bool) {
 	return false
 }
 func vLearnBits(x uint64, w int) {}
+
+// vAbstractCRC: from here on the engine treats the CRC-32 of symbolic bytes as an
+// unknown function of those bytes (equal inputs give equal checksums, nothing
+// else is assumed); natively the real CRC is computed.
+func vAbstractCRC() {}
+
+// vAbstractCRCFixedWidth: as vAbstractCRC, and the unknown checksum is assumed
+// to be one whose signed 32-bit value takes the full five bytes as a Thrift
+// zig-zag varint (bit 31 != bit 30), so that page headers have one length
+// instead of five. Header layouts with a shorter CRC field are not explored.
+func vAbstractCRCFixedWidth() {}
 func vOverlap(a, b []byte) bool {
 	if cap(a) == 0 || cap(b) == 0 {
 		return false
